@@ -558,3 +558,14 @@ Definition fenv_t := string -> option (list val -> R val).
 Definition fenv_add (name : string) (sem : list val -> R val) (f : fenv_t) : fenv_t :=
   fun x => if String.eqb x name then Some sem else f x.
 Definition fenv_empty : fenv_t := fun _ => None.
+
+(* the environment of a whole list of definitions, built by a fold: each level is constructed once, which makes it
+   the form to *execute* (call-by-value evaluation of the chain of named environments in gen/PyAst.v rebuilds every
+   level twice per level).  gen/PyAst.v proves the two equal (build_chain). *)
+Fixpoint build (genv : string -> option val) (fuel : nat) (l : list (string * fundef)) (acc : fenv_t) : fenv_t :=
+  match l with
+  | [] => acc
+  | (n, a) :: r => build genv fuel r (fenv_add n (call acc genv fuel a) acc)
+  end.
+Lemma build_app genv fuel l1 l2 acc : build genv fuel (l1 ++ l2) acc = build genv fuel l2 (build genv fuel l1 acc).
+Proof. revert acc; induction l1 as [|[n a] r IH]; intros acc; cbn [build app]; [reflexivity|apply IH]. Qed.
